@@ -23,9 +23,9 @@ pub fn def() -> PropDef {
 fn plan(tier: Tier) -> Vec<Unit> {
     match tier {
         Tier::Quick => {
-            let mut v = crate::util::split_budget("pairs", 24_000, 500);
-            v.extend(crate::util::split_budget("prims", 4_000, 200));
-            v.extend(crate::util::split_budget("zero", 600, 100));
+            let mut v = crate::util::split_budget("pairs", 100_000, 1_000);
+            v.extend(crate::util::split_budget("prims", 12_000, 300));
+            v.extend(crate::util::split_budget("zero", 1_600, 100));
             v
         }
         Tier::Thorough => {
